@@ -118,6 +118,8 @@ pub fn range_hist(case: &Value, mode: &str, rep: &mut Report) {
             }
         }
         "c07" => {
+            // the same message on the ANS (stack) coder: decoders over borrowed, owned, consuming and reversed backends
+            crate::ans_seek::seek_case(case, w, s, &hist, rep);
             // snapshots at every symbol boundary, taken from the encoder while encoding
             let snaps: Vec<(usize, u128, u128)> = prefixes.iter().map(|p| p.pos()).collect();
             let words = g!("into_compressed", enc.clone_box().into_compressed());
